@@ -605,6 +605,17 @@ func (ex *Exec) specCall(call *ast.CallExpr, info *types.Info, env *SpecEnv, pc 
 			return BoolV{Or(Eq(lv.Held, BV(2, 8)), Eq(lv.Held, BV(1, 8)))}
 		}
 		return BoolV{Eq(lv.Held, BV(0, 8))}
+	case "oncedone":
+		p := arg(0)
+		ex.dry++
+		ex.inSpec++
+		ov, ok := ex.load(env.st, p, nil, pc, token.NoPos).(OnceV)
+		ex.dry--
+		ex.inSpec--
+		if !ok {
+			panic("contract: oncedone() of a non-Once")
+		}
+		return BoolV{ov.Done}
 	case "past":
 		t := arg(0).(TimeV).T
 		return BoolV{And(BVSle(BV(0, 64), t), BVSle(t, env.st.get("ghost|clock", SBV(64))))}
@@ -901,6 +912,7 @@ func (ex *Exec) seqEq(a, b SliceV, env *SpecEnv, pc *Term) *Term {
 func (fr *Frame) contractCall(ct *Contract, fn *ssa.Function, args []Value, pc *Term, st *State, pos token.Pos, resT types.Type) callResult {
 	ex := fr.ex
 	ex.ctx.calledContracts[contractName(ct)]++
+	nPreCall := len(ex.assumes)
 	info := ex.ctx.infoOf[ct.StubObj.Pkg()]
 	env := &SpecEnv{vars: map[types.Object]Value{}, st: st, old: st}
 	bindStubParams(ct, info, env, args)
@@ -984,14 +996,16 @@ func (fr *Frame) contractCall(ct *Contract, fn *ssa.Function, args []Value, pc *
 				isFresh = true
 			}
 		}
-		if isFresh {
-			al = Store(al, r, True)
-		} else {
+		if !isFresh {
 			ex.assume(pc, Or(Eq(r, RefNil()), Select(al0, r)))
 		}
 	}
+	// everything the callee's contract declares fresh joins the allocated set
+	for _, f := range env.freshRefs {
+		al = Store(al, f, True)
+	}
 	st.set("alloc", al)
-	ex.cover("after call "+contractName(ct), pos, pc)
+	ex.coverFrom("after call "+contractName(ct), pos, pc, nPreCall)
 	// lock state is restored by every function unless the contract says otherwise
 	return callResult{val: res, st: st}
 }
